@@ -82,7 +82,7 @@ func vfDoc(rng *rand.Rand) any {
 
 func TestVfC13Drafty(t *testing.T) {
 	r := vfkit.New("C13")
-	defer r.Flush(true)
+	defer r.Finish()
 	rng := r.Rand(7)
 	n := r.Pick(60000, 1000000)
 	for i := 0; i < n; i++ {
